@@ -69,15 +69,15 @@ type c19Proxy struct {
 // c19Case is one proxy call: sets are given as explicit lists (order and
 // duplicates matter to an implementation, not to the model).
 type c19Case struct {
-	Caller   []string `json:"caller"`   // attached set (only if Attached)
-	Attached bool     `json:"attached"` // permissions attached to ctx at all?
-	NilSet   bool     `json:"nil_set"`  // attach a nil slice instead of an empty one
+	Caller   []string  `json:"caller"`        // attached set (only if Attached)
+	Attached bool      `json:"attached"`      // permissions attached to ctx at all?
+	NilSet   bool      `json:"nil_set"`       // attach a nil slice instead of an empty one
 	Pre      *[]string `json:"pre,omitempty"` // a set attached earlier on the same context chain (only with Attached): the later one is in force
-	Defaults []string `json:"defaults"`
-	Required int      `json:"required"` // index into universe
-	Value    bool     `json:"value"`    // shape (value,error) vs error
-	ImplFail bool     `json:"impl_fail"`
-	X        int      `json:"x"`
+	Defaults []string  `json:"defaults"`
+	Required int       `json:"required"` // index into universe
+	Value    bool      `json:"value"`    // shape (value,error) vs error
+	ImplFail bool      `json:"impl_fail"`
+	X        int       `json:"x"`
 }
 
 func toPerms(s []string) []auth.Permission {
@@ -182,13 +182,13 @@ func runC19Proxy(c c19Case) *Violation {
 // ---- HTTP auth handler ----------------------------------------------------
 
 type c19HTTPCase struct {
-	Header    *string  `json:"header"` // Authorization header value, nil = absent
-	Query     *string  `json:"query"`  // ?token= value, nil = absent
-	VerifyErr bool     `json:"verify_err"`
-	Allow     []string `json:"allow"`
-	AllowNil  bool     `json:"allow_nil"`
-	Method    string   `json:"method,omitempty"` // HTTP method ("" = POST): the handler's duties do not depend on it
-	Pre       *[]string `json:"pre,omitempty"`   // the request reaches the handler already carrying this set (outer middleware); used for token-bearing requests only
+	Header    *string   `json:"header"` // Authorization header value, nil = absent
+	Query     *string   `json:"query"`  // ?token= value, nil = absent
+	VerifyErr bool      `json:"verify_err"`
+	Allow     []string  `json:"allow"`
+	AllowNil  bool      `json:"allow_nil"`
+	Method    string    `json:"method,omitempty"` // HTTP method ("" = POST): the handler's duties do not depend on it
+	Pre       *[]string `json:"pre,omitempty"`    // the request reaches the handler already carrying this set (outer middleware); used for token-bearing requests only
 }
 
 func runC19HTTP(c c19HTTPCase) *Violation {
